@@ -308,6 +308,7 @@ class Nfa:
         self.cls: List[Optional[FrozenSet[int]]] = []
         self.neg: List[bool] = []
         self.uses_prev = False
+        self.loops: List[dict] = []      # unbounded repeats: {"state": loop head, "body": entry of one iteration, "rule": name}
 
     def new(self, kind, a=None, b=None, cls=None, neg=False) -> int:
         self.kind.append(kind)
@@ -394,6 +395,8 @@ class _Builder:
             if unbounded:
                 loop = n.new(Nfa.SPLIT)
                 body = self.seq(p, flags, loop)
+                n.loops.append({"state": loop, "body": body, "rule": getattr(self, "current_rule", None), "greedy": greedy,
+                                "min": lo, "max": None if hi is _k.MAXREPEAT else hi})
                 if greedy:
                     n.a[loop], n.b[loop] = body, nxt
                 else:
@@ -459,6 +462,7 @@ def compile_rules(pattern: str, flags: int, alphabet: Alphabet, N: int) -> Tuple
                                "(the regex parser factored the alternatives, or this is not a SLY master pattern)")
         gid, add, dele, p = alt[0][1]
         m = b.nfa.new(Nfa.MATCH)
+        b.current_rule = names[gid]
         entry = b.seq(p, (fl | add) & ~dele, m)
         rules.append((names[gid], entry))
     return b.nfa, rules
@@ -708,6 +712,49 @@ class SymText:
             return r
 
         return go(entry, start)
+
+    def loop_paths(self, nfa: Nfa, loop: int, body: int, K) -> Tuple[Any, Any]:
+        """(at least one, at least two) distinct NFA paths that start with an iteration of the loop at position 0 and are
+        back at the loop head exactly at position K, having consumed c[0:K) in one *or several* iterations.
+        Language-level semantics: priorities are ignored, zero-width assertions count as epsilon (over-approximation;
+        a reported ambiguity is confirmed or refuted by timing the real matcher).  Two such paths over the same string
+        are the classical criterion for exponential backtracking (EDA)."""
+        memo: Dict[Tuple[int, int], Tuple[Any, Any]] = {}
+        F = z3.BoolVal(False)
+
+        def go(s: int, i: int) -> Tuple[Any, Any]:
+            key = (s, i)
+            r = memo.get(key)
+            if r is not None:
+                return r
+            k = nfa.kind[s]
+            if s == loop:
+                if i == 0:
+                    r = go(body, 0)
+                elif i >= self.N:
+                    r = (K == i, F)
+                else:
+                    b1, b2 = go(body, i)          # stop here (i == K) or start another iteration (i < K): exclusive
+                    r = (z3.Or(K == i, z3.And(K > i, b1)), z3.And(K > i, b2))
+            elif k == Nfa.MATCH:
+                r = (F, F)
+            elif k == Nfa.CHAR:
+                if i >= self.N:
+                    r = (F, F)
+                else:
+                    n1, n2 = go(nfa.a[s], i + 1)
+                    ok = z3.And(K > i, self.incls(i, nfa.cls[s]))
+                    r = (z3.And(ok, n1), z3.And(ok, n2))
+            elif k == Nfa.SPLIT:
+                a1, a2 = go(nfa.a[s], i)
+                b1, b2 = go(nfa.b[s], i)
+                r = (z3.Or(a1, b1), z3.Or(a2, b2, z3.And(a1, b1)))
+            else:   # LOOK / BEHIND / BOUND / BEGIN / END: epsilon
+                r = go(nfa.a[s], i)
+            memo[key] = r
+            return r
+
+        return go(loop, 0)
 
     def lex1(self) -> Tuple[Any, Any]:
         """(kind, end) of one step of SLY's tokenize loop at position 0 of this text."""
@@ -1232,14 +1279,14 @@ class Session:
                 region = next((r for r in ob.regions if r not in st["excl"] and r.contains(lexeme)), None)
                 auto = region is None
                 if auto:
-                    region = Region(f"exact:{lexeme!r}", re.escape(lexeme), "exactly this lexeme", flags=REGION_FLAGS & ~re.I)
+                    region = Region(f"exact:{lexeme!r}", re.escape(lexeme), "exactly this lexeme (any letter case)", flags=REGION_FLAGS)
                 repeated = region.id in st["hits"]
                 st["hits"].append(region.id)
                 wit = {"text": rep.get("text"), "prev": rep.get("prev", ""), "lexeme": lexeme, "expected": rep.get("expected"),
                        "real_lexer": rep.get("real"), "region": region.id, "region_what": region.what,
-                       "how_to_replay": "list(odata_query.grammar.ODataLexer().tokenize(text)) / "
+                       "how_to_replay": rep.get("how_to_replay") or "list(odata_query.grammar.ODataLexer().tokenize(text)) / "
                                         "ODataLexer._master_re.match(text): compare the first token with `expected`"}
-                if ob.informational:
+                if ob.informational or rep.get("informational"):
                     run.add(f"{ob.name}@{region.id}", "informational", ob.family, {"what": rep.get("what"), **wit}, out.seconds)
                     run.notes.append(f"{ob.name} [{region.id}]: {rep.get('what')}")
                 else:
@@ -1255,7 +1302,7 @@ class Session:
                 elif st["round"] < rounds:
                     st["excl"].append(region)
                     self._submit(pool, ob, list(st["excl"]), ob.timeout or timeout)
-                else:
+                elif rounds > 1:
                     run.inconclusive(oname + ":after-exclusions", ob.family,
                                      "maximum number of exclusion rounds reached; further counterexamples may exist")
 
@@ -1737,3 +1784,144 @@ def ob_caseflip_rule(sess: Session, name: str, family: str, N: int, rule: str, t
                 "real": [rule, ea, eb], "what": f"rule {rule} alone: extent {ea} on {a['text']!r} but {eb} on its case variant {b['text']!r}"}
 
     return Obligation(name, family, N, build, replay, [], informational=True, timeout=timeout, max_rounds=1)
+
+
+# --------------------------------------------------------------------------------------------------
+# exponential backtracking (termination of the scan in practice)
+# --------------------------------------------------------------------------------------------------
+def _path_to(nfa: Nfa, entry: int, target: int, chars: Sequence[str]) -> Optional[str]:
+    """some string that leads the NFA from `entry` to `target` (breadth-first, assertions as epsilon)"""
+    from collections import deque
+    seen = {entry: ""}
+    dq = deque([entry])
+    while dq:
+        s = dq.popleft()
+        if s == target:
+            return seen[s]
+        k = nfa.kind[s]
+        nxt: List[Tuple[int, str]] = []
+        if k == Nfa.CHAR:
+            cls = nfa.cls[s]
+            if cls:
+                pref = [i for i in cls if 33 <= i < 127] or sorted(cls)
+                nxt.append((nfa.a[s], chars[pref[0]]))
+        elif k == Nfa.SPLIT:
+            nxt += [(nfa.a[s], ""), (nfa.b[s], "")]
+        elif k != Nfa.MATCH:
+            nxt.append((nfa.a[s], ""))
+        for t, ch in nxt:
+            if t is not None and t not in seen:
+                seen[t] = seen[s] + ch
+                dq.append(t)
+    return None
+
+
+def time_pumped(master: re.Pattern, prefix: str, pump: str, suffixes: Sequence[str], budget_s: float = 12.0,
+                per_match_s: float = 3.0, max_n: int = 4000) -> dict:
+    """Time `master.match(prefix + pump*n + suffix)` for growing n in a forked child (killed after the budget).
+    Returns {"suffix", "series": [(n, seconds)], "timed_out_at": n or None}."""
+    ctx = mp.get_context("fork")
+    pc, cc = ctx.Pipe(duplex=False)
+
+    def child():
+        try:
+            # pick the suffix that makes the matcher work hardest at a small n
+            best, best_t = suffixes[0], -1.0
+            for sfx in suffixes:
+                t0 = time.perf_counter()
+                master.match(prefix + pump * 8 + sfx)
+                dt = time.perf_counter() - t0
+                if dt > best_t:
+                    best, best_t = sfx, dt
+            cc.send(("suffix", best))
+            n = 8
+            while n <= max_n:
+                cc.send(("start", n))
+                t0 = time.perf_counter()
+                master.match(prefix + pump * n + best)
+                dt = time.perf_counter() - t0
+                cc.send(("done", n, dt))
+                if dt > per_match_s:
+                    break
+                n += 1 if dt > 0.001 else max(1, n // 4)
+        finally:
+            cc.close()
+
+    p = ctx.Process(target=child)
+    p.start()
+    cc.close()
+    out = {"suffix": None, "series": [], "timed_out_at": None}
+    started = None
+    deadline = time.time() + budget_s
+    while time.time() < deadline:
+        if pc.poll(0.05):
+            try:
+                msg = pc.recv()
+            except EOFError:
+                break
+            if msg[0] == "suffix":
+                out["suffix"] = msg[1]
+            elif msg[0] == "start":
+                started = msg[1]
+            else:
+                out["series"].append((msg[1], round(msg[2], 5)))
+                started = None
+        elif not p.is_alive():
+            break
+    if p.is_alive():
+        p.kill()
+        out["timed_out_at"] = started
+    p.join()
+    return out
+
+
+def exponential(series: Sequence[Tuple[int, float]], timed_out_at: Optional[int]) -> Tuple[bool, str]:
+    """super-linear (exponential) growth: the time at least doubles per +2 repeats over the measurable range, or a single
+    match ran into the kill after the measured times had been climbing."""
+    pts = [(n, t) for n, t in series if t >= 0.002]
+    ratios = []
+    for (n1, t1), (n2, t2) in zip(pts, pts[1:]):
+        if n2 > n1:
+            ratios.append((t2 / t1) ** (2.0 / (n2 - n1)))
+    if len(ratios) >= 3 and sorted(ratios)[len(ratios) // 2] >= 1.8 and pts[-1][1] >= 0.2:
+        return True, f"time grows by a factor of about {sorted(ratios)[len(ratios) // 2]:.1f} per two more repeats (last: n={pts[-1][0]} {pts[-1][1]:.2f}s)"
+    if timed_out_at is not None and timed_out_at <= 200:
+        return True, f"a single match with n={timed_out_at} repeats did not return within the time budget"
+    return False, "no exponential growth measured"
+
+
+def ob_no_eda(sess: Session, name: str, family: str, N: int, loop_index: int, timeout: Optional[float] = None) -> Obligation:
+    """Loop number `loop_index` of the live pattern is not exponentially ambiguous: there is no string that the loop can
+    consume, from loop head back to loop head, along two different NFA paths (one iteration vs. several, or two different
+    ways through the body).  sat => the witness is pumped and the real `_master_re.match` is timed; only measured
+    exponential growth is a violation."""
+    eng = sess.engines[N]
+    lp = eng.nfa.loops[loop_index]
+
+    def build(txt: SymText, excl: List[Region]) -> Query:
+        K = pos_var("K")
+        _g1, g2 = txt.loop_paths(txt.eng.nfa, lp["state"], lp["body"], K)
+        pre = [K >= 1, K <= txt.L, txt.L == K]
+        return Query(name, pre, [g2], {"t": txt}, {"K": K}, minimise=txt.L, family=family)
+
+    def replay(w: dict) -> dict:
+        t = w["texts"]["t"]
+        pump = t["text"][:w["ints"]["K"]]
+        entry = dict(eng.rules).get(lp["rule"])
+        prefix = _path_to(eng.nfa, entry, lp["state"], eng.alphabet.chars) if entry is not None else None
+        if prefix is None:
+            return {"consistent": False, "why": f"no path from the entry of rule {lp['rule']} to the loop head"}
+        suffixes = ["", "\x00", "\n", "!", "'", "a", "0", " ", pump[:1] + "\x00"]
+        res = time_pumped(sess.spec.master, prefix, pump, suffixes)
+        bad, why = exponential(res["series"], res["timed_out_at"])
+        text = prefix + pump * 3 + (res["suffix"] or "")
+        return {"consistent": True, "reproduced": True, "informational": not bad, "lexeme": pump, "text": text, "prev": "",
+                "expected": "time linear in the length of the input",
+                "how_to_replay": "time ODataLexer._master_re.match(prefix + pump * n + suffix) (or list(ODataLexer().tokenize(...))) "
+                                 "for n = 10, 12, 14, ...",
+                "real": {"prefix": prefix, "pump": pump, "suffix": res["suffix"], "seconds_by_repeats": res["series"][-8:],
+                         "timed_out_at_repeats": res["timed_out_at"]},
+                "what": (f"rule {lp['rule']}: the loop can consume {pump!r} in two different ways; "
+                         f"_master_re.match({prefix!r} + {pump!r}*n + {res['suffix']!r}): {why}")}
+
+    return Obligation(name, family, N, build, replay, [], timeout=timeout, max_rounds=1)
